@@ -145,6 +145,10 @@ void vrt_user(const char *name, int n, ...){
   va_start(ap, n); log_ev(name, n, ap); va_end(ap);
 }
 long vrt_nevents(void){ return nev; }
+/* look at a recently recorded event (back = 1 is the last one) */
+int vrt_peek(int back, const char **name, long *lastarg){
+  ev_t *e; if (back < 1 || back > nev) return 0;
+  e = &evs[nev - back]; *name = e->name; *lastarg = e->n ? e->a[e->n - 1] : 0; return 1; }
 int vrt_all_others_idle(void){ int i; for (i = 0; i < NW; i++) if (i != me && !idle[i]) return 0; return 1; }
 
 static int cmp_long(const void *a, const void *b){ long x = *(const long*)a, y = *(const long*)b; return x < y ? -1 : x > y; }
